@@ -122,31 +122,36 @@ syntax "loop_ok_case " ident : tactic
 macro_rules
   | `(tactic| loop_ok_case $L:ident) => `(tactic| (rename_i ih h; loop_ok_core $L ih h))
 
-/-- closes one case of the induction of a `…_err` loop lemma -/
-syntax "loop_err_core " ident ident ident ident : tactic
+/-- closes one case of the induction of a `…_mono` loop lemma (`h : L m … = x`, `hne : x ≠ CostExceeded`,
+`hle : m ≤ m'`, goal `L m' … = x`) -/
+syntax "loop_mono_core " ident ident ident ident : tactic
 macro_rules
-  | `(tactic| loop_err_core $L:ident $hne:ident $hle:ident $h:ident) => `(tactic|
+  | `(tactic| loop_mono_core $L:ident $hne:ident $hle:ident $h:ident) => `(tactic|
     first
-    | (cases $h:ident; done)
-    | (cases $h:ident; exact absurd (checkCost_err ‹_›) $hne)
+    | (subst $h:ident; exact absurd (congrArg Except.error (checkCost_err ‹_›)) $hne)
+    | (subst $h:ident; first
+        | rfl
+        | (loop_prep <;>
+           (simp only [$L:ident, *, ↓reduceIte, Bool.false_eq_true, eq_self]; done)))
     | (loop_prep <;>
        (simp only [$L:ident, *, checkCost_mono $hle, ↓reduceIte, Bool.false_eq_true, eq_self]; done)))
 
-syntax "loop_err_case " ident ident ident : tactic
+syntax "loop_mono_case " ident ident ident : tactic
 macro_rules
-  | `(tactic| loop_err_case $L:ident $hne:ident $hle:ident) =>
-    `(tactic| (rename_i h; loop_err_core $L $hne $hle h))
+  | `(tactic| loop_mono_case $L:ident $hne:ident $hle:ident) =>
+    `(tactic| (rename_i h; loop_mono_core $L $hne $hle h))
 
 syntax "step_ok_core " ident ident : tactic
 macro_rules
   | `(tactic| step_ok_core $L:ident $h:ident) => `(tactic|
     first
     | (cases $h:ident; done)
-    | (cases $h:ident; loop_prep <;>
-       (simp only [$L:ident, *, ↓reduceIte, Bool.false_eq_true, eq_self];
+    | (loop_prep <;>
+       (cases $h:ident; simp only [$L:ident, *, ↓reduceIte, Bool.false_eq_true, eq_self];
         first
         | done
         | exact LoopOk.pure (Nat.le_refl _)
+        | exact LoopOk.pure (Nat.zero_le _)
         | exact (LoopOk.pure (Nat.le_refl _)).check (by cost_omega))))
 
 /-! ### the loops -/
@@ -156,81 +161,81 @@ theorem sha256Loop_ok {cpa cpb m l cost acc r} (h : sha256Loop cpa cpb m l cost 
   revert h
   fun_induction sha256Loop cpa cpb m l cost acc <;> intro h <;> loop_ok_case sha256Loop
 
-theorem sha256Loop_err {cpa cpb m l cost acc e} (h : sha256Loop cpa cpb m l cost acc = .error e)
-    (hne : e ≠ .CostExceeded) {m'} (hle : m ≤ m') : sha256Loop cpa cpb m' l cost acc = .error e := by
+theorem sha256Loop_mono {cpa cpb m l cost acc x} (h : sha256Loop cpa cpb m l cost acc = x)
+    (hne : x ≠ .error .CostExceeded) {m'} (hle : m ≤ m') : sha256Loop cpa cpb m' l cost acc = x := by
   revert h
-  fun_induction sha256Loop cpa cpb m l cost acc <;> intro h <;> loop_err_case sha256Loop hne hle
+  fun_induction sha256Loop cpa cpb m l cost acc <;> intro h <;> loop_mono_case sha256Loop hne hle
 
 theorem unknownConcat_ok {m l cost r} (h : unknownConcat m l cost = .ok r) :
     LoopOk r cost (fun m' => unknownConcat m' l cost) r := by
   revert h
   fun_induction unknownConcat m l cost <;> intro h <;> loop_ok_case unknownConcat
 
-theorem unknownConcat_err {m l cost e} (h : unknownConcat m l cost = .error e)
-    (hne : e ≠ .CostExceeded) {m'} (hle : m ≤ m') : unknownConcat m' l cost = .error e := by
+theorem unknownConcat_mono {m l cost x} (h : unknownConcat m l cost = x)
+    (hne : x ≠ .error .CostExceeded) {m'} (hle : m ≤ m') : unknownConcat m' l cost = x := by
   revert h
-  fun_induction unknownConcat m l cost <;> intro h <;> loop_err_case unknownConcat hne hle
+  fun_induction unknownConcat m l cost <;> intro h <;> loop_mono_case unknownConcat hne hle
 
 theorem boolLoop_ok {m isAny l cost acc r} (h : boolLoop m isAny l cost acc = .ok r) :
     LoopOk r.1 cost (fun m' => boolLoop m' isAny l cost acc) r := by
   revert h
   fun_induction boolLoop m isAny l cost acc <;> intro h <;> loop_ok_case boolLoop
 
-theorem boolLoop_err {m isAny l cost acc e} (h : boolLoop m isAny l cost acc = .error e)
-    (hne : e ≠ .CostExceeded) {m'} (hle : m ≤ m') : boolLoop m' isAny l cost acc = .error e := by
+theorem boolLoop_mono {m isAny l cost acc x} (h : boolLoop m isAny l cost acc = x)
+    (hne : x ≠ .error .CostExceeded) {m'} (hle : m ≤ m') : boolLoop m' isAny l cost acc = x := by
   revert h
-  fun_induction boolLoop m isAny l cost acc <;> intro h <;> loop_err_case boolLoop hne hle
+  fun_induction boolLoop m isAny l cost acc <;> intro h <;> loop_mono_case boolLoop hne hle
 
 theorem concatLoop_ok {m l cost ts terms r} (h : concatLoop m l cost ts terms = .ok r) :
     LoopOk r.1 cost (fun m' => concatLoop m' l cost ts terms) r := by
   revert h
   fun_induction concatLoop m l cost ts terms <;> intro h <;> loop_ok_case concatLoop
 
-theorem concatLoop_err {m l cost ts terms e} (h : concatLoop m l cost ts terms = .error e)
-    (hne : e ≠ .CostExceeded) {m'} (hle : m ≤ m') : concatLoop m' l cost ts terms = .error e := by
+theorem concatLoop_mono {m l cost ts terms x} (h : concatLoop m l cost ts terms = x)
+    (hne : x ≠ .error .CostExceeded) {m'} (hle : m ≤ m') : concatLoop m' l cost ts terms = x := by
   revert h
-  fun_induction concatLoop m l cost ts terms <;> intro h <;> loop_err_case concatLoop hne hle
+  fun_induction concatLoop m l cost ts terms <;> intro h <;> loop_mono_case concatLoop hne hle
 
 theorem unknownArith_ok {nm m l cost sz r} (h : unknownArith nm m l cost sz = .ok r) :
     LoopOk r cost (fun m' => unknownArith nm m' l cost sz) r := by
   revert h
   cases nm <;> fun_induction unknownArith _ m l cost sz <;> intro h <;> loop_ok_case unknownArith
 
-theorem unknownArith_err {nm m l cost sz e} (h : unknownArith nm m l cost sz = .error e)
-    (hne : e ≠ .CostExceeded) {m'} (hle : m ≤ m') : unknownArith nm m' l cost sz = .error e := by
+theorem unknownArith_mono {nm m l cost sz x} (h : unknownArith nm m l cost sz = x)
+    (hne : x ≠ .error .CostExceeded) {m'} (hle : m ≤ m') : unknownArith nm m' l cost sz = x := by
   revert h
-  cases nm <;> fun_induction unknownArith _ m l cost sz <;> intro h <;> loop_err_case unknownArith hne hle
+  cases nm <;> fun_induction unknownArith _ m l cost sz <;> intro h <;> loop_mono_case unknownArith hne hle
 
 theorem addGeneric_ok {nm cpa cpb m l cost acc sa r} (h : addGeneric nm cpa cpb m l cost acc sa = .ok r) :
     LoopOk r.1 cost (fun m' => addGeneric nm cpa cpb m' l cost acc sa) r := by
   revert h
   cases nm <;> fun_induction addGeneric _ cpa cpb m l cost acc sa <;> intro h <;> loop_ok_case addGeneric
 
-theorem addGeneric_err {nm cpa cpb m l cost acc sa e} (h : addGeneric nm cpa cpb m l cost acc sa = .error e)
-    (hne : e ≠ .CostExceeded) {m'} (hle : m ≤ m') : addGeneric nm cpa cpb m' l cost acc sa = .error e := by
+theorem addGeneric_mono {nm cpa cpb m l cost acc sa x} (h : addGeneric nm cpa cpb m l cost acc sa = x)
+    (hne : x ≠ .error .CostExceeded) {m'} (hle : m ≤ m') : addGeneric nm cpa cpb m' l cost acc sa = x := by
   revert h
-  cases nm <;> fun_induction addGeneric _ cpa cpb m l cost acc sa <;> intro h <;> loop_err_case addGeneric hne hle
+  cases nm <;> fun_induction addGeneric _ cpa cpb m l cost acc sa <;> intro h <;> loop_mono_case addGeneric hne hle
 
 theorem subGeneric_ok {nm cpa cpb m l cost acc sa fi r} (h : subGeneric nm cpa cpb m l cost acc sa fi = .ok r) :
     LoopOk r.1 cost (fun m' => subGeneric nm cpa cpb m' l cost acc sa fi) r := by
   revert h
   cases nm <;> fun_induction subGeneric _ cpa cpb m l cost acc sa fi <;> intro h <;> loop_ok_case subGeneric
 
-theorem subGeneric_err {nm cpa cpb m l cost acc sa fi e}
-    (h : subGeneric nm cpa cpb m l cost acc sa fi = .error e)
-    (hne : e ≠ .CostExceeded) {m'} (hle : m ≤ m') : subGeneric nm cpa cpb m' l cost acc sa fi = .error e := by
+theorem subGeneric_mono {nm cpa cpb m l cost acc sa fi x}
+    (h : subGeneric nm cpa cpb m l cost acc sa fi = x)
+    (hne : x ≠ .error .CostExceeded) {m'} (hle : m ≤ m') : subGeneric nm cpa cpb m' l cost acc sa fi = x := by
   revert h
-  cases nm <;> fun_induction subGeneric _ cpa cpb m l cost acc sa fi <;> intro h <;> loop_err_case subGeneric hne hle
+  cases nm <;> fun_induction subGeneric _ cpa cpb m l cost acc sa fi <;> intro h <;> loop_mono_case subGeneric hne hle
 
 theorem binopLoop_ok {nme nm f m l cost pa na r} (h : binopLoop nme nm f m l cost pa na = .ok r) :
     LoopOk r.1 cost (fun m' => binopLoop nme nm f m' l cost pa na) r := by
   revert h
   cases nm <;> fun_induction binopLoop nme _ f m l cost pa na <;> intro h <;> loop_ok_case binopLoop
 
-theorem binopLoop_err {nme nm f m l cost pa na e} (h : binopLoop nme nm f m l cost pa na = .error e)
-    (hne : e ≠ .CostExceeded) {m'} (hle : m ≤ m') : binopLoop nme nm f m' l cost pa na = .error e := by
+theorem binopLoop_mono {nme nm f m l cost pa na x} (h : binopLoop nme nm f m l cost pa na = x)
+    (hne : x ≠ .error .CostExceeded) {m'} (hle : m ≤ m') : binopLoop nme nm f m' l cost pa na = x := by
   revert h
-  cases nm <;> fun_induction binopLoop nme _ f m l cost pa na <;> intro h <;> loop_err_case binopLoop hne hle
+  cases nm <;> fun_induction binopLoop nme _ f m l cost pa na <;> intro h <;> loop_mono_case binopLoop hne hle
 
 /-! `unknownMul`: its equation lemmas cannot be generated within the default recursion depth, so the
 unfolding equations are stated by hand (`rfl`) and the induction uses `unknownMul.induct`. -/
@@ -299,19 +304,19 @@ theorem unknownMul_ok {nm : Bool} {m d : Nat} {l : List Val} {cost l0 : Nat} {fi
       loop_ok_core unknownMul_cons ih h
 
 set_option maxRecDepth 4000 in
-theorem unknownMul_err {nm : Bool} {m d : Nat} {l : List Val} {cost l0 : Nat} {fi : Bool} {e : Err}
-    (h : unknownMul nm m d l cost l0 fi = .error e)
-    (hne : e ≠ .CostExceeded) {m' : Nat} (hle : m ≤ m') : unknownMul nm m' d l cost l0 fi = .error e := by
+theorem unknownMul_mono {nm : Bool} {m d : Nat} {l : List Val} {cost l0 : Nat} {fi : Bool} {x : Except Err _}
+    (h : unknownMul nm m d l cost l0 fi = x)
+    (hne : x ≠ .error .CostExceeded) {m' : Nat} (hle : m ≤ m') : unknownMul nm m' d l cost l0 fi = x := by
   revert h
   cases nm
   · induction l, cost, l0, fi using unknownMul.induct (nm := false) (maxCost := m) (sqDiv := d) <;>
       intro h <;> loop_prep <;>
       simp only [unknownMul_nil, unknownMul_cons, *, ↓reduceIte, Bool.false_eq_true] at h <;>
-      loop_err_core unknownMul_cons hne hle h
+      loop_mono_core unknownMul_cons hne hle h
   · induction l, cost, l0, fi using unknownMul.induct (nm := true) (maxCost := m) (sqDiv := d) <;>
       intro h <;> loop_prep <;>
       simp only [unknownMul_nil, unknownMul_cons, *, ↓reduceIte, Bool.false_eq_true] at h <;>
-      loop_err_core unknownMul_cons hne hle h
+      loop_mono_core unknownMul_cons hne hle h
 
 /-! ### fast paths of `op_add` / `op_subtract` -/
 
@@ -321,11 +326,11 @@ theorem addFast_ok {nm : Bool} {cpa cpb m : Nat} {l : List Val} {cost total : Na
   revert h
   cases nm <;> fun_induction addFast _ cpa cpb m l cost total <;> intro h <;> loop_ok_case addFast
 
-theorem addFast_err {nm : Bool} {cpa cpb m : Nat} {l : List Val} {cost total : Nat} {e : Err}
-    (h : addFast nm cpa cpb m l cost total = .error e)
-    (hne : e ≠ .CostExceeded) {m' : Nat} (hle : m ≤ m') : addFast nm cpa cpb m' l cost total = .error e := by
+theorem addFast_mono {nm : Bool} {cpa cpb m : Nat} {l : List Val} {cost total : Nat} {x : Except Err _}
+    (h : addFast nm cpa cpb m l cost total = x)
+    (hne : x ≠ .error .CostExceeded) {m' : Nat} (hle : m ≤ m') : addFast nm cpa cpb m' l cost total = x := by
   revert h
-  cases nm <;> fun_induction addFast _ cpa cpb m l cost total <;> intro h <;> loop_err_case addFast hne hle
+  cases nm <;> fun_induction addFast _ cpa cpb m l cost total <;> intro h <;> loop_mono_case addFast hne hle
 
 theorem subFast_ok {nm : Bool} {cpa cpb m : Nat} {l : List Val} {cost : Nat} {total : Int} {fi : Bool} {r : Nat × Int}
     (h : subFast nm cpa cpb m l cost total fi = .ok (some r)) :
@@ -333,11 +338,11 @@ theorem subFast_ok {nm : Bool} {cpa cpb m : Nat} {l : List Val} {cost : Nat} {to
   revert h
   cases nm <;> fun_induction subFast _ cpa cpb m l cost total fi <;> intro h <;> loop_ok_case subFast
 
-theorem subFast_err {nm : Bool} {cpa cpb m : Nat} {l : List Val} {cost : Nat} {total : Int} {fi : Bool} {e : Err}
-    (h : subFast nm cpa cpb m l cost total fi = .error e)
-    (hne : e ≠ .CostExceeded) {m' : Nat} (hle : m ≤ m') : subFast nm cpa cpb m' l cost total fi = .error e := by
+theorem subFast_mono {nm : Bool} {cpa cpb m : Nat} {l : List Val} {cost : Nat} {total : Int} {fi : Bool} {x : Except Err _}
+    (h : subFast nm cpa cpb m l cost total fi = x)
+    (hne : x ≠ .error .CostExceeded) {m' : Nat} (hle : m ≤ m') : subFast nm cpa cpb m' l cost total fi = x := by
   revert h
-  cases nm <;> fun_induction subFast _ cpa cpb m l cost total fi <;> intro h <;> loop_err_case subFast hne hle
+  cases nm <;> fun_induction subFast _ cpa cpb m l cost total fi <;> intro h <;> loop_mono_case subFast hne hle
 
 /-! a fall-back decision of the fast path is budget-independent once the generic loop succeeded:
 the values the fast path checks are the values the generic loop checks on the same prefix -/
@@ -458,21 +463,11 @@ theorem mulStep_ok {cfg : Cfg} {flags m d : Nat} {arg : Val} {cost : Nat} {total
   revert h
   fun_cases mulStep cfg flags m d arg cost total l0 <;> intro h <;> step_ok_core mulStep h
 
-set_option linter.unusedVariables false in
-theorem mulStep_err {cfg : Cfg} {flags m d : Nat} {arg : Val} {cost : Nat} {total : Int} {l0 : Nat} {e : Err}
-    (h : mulStep cfg flags m d arg cost total l0 = .error e)
-    (hne : e ≠ .CostExceeded) {m' : Nat} (hle : m ≤ m') : mulStep cfg flags m' d arg cost total l0 = .error e := by
+theorem mulStep_mono {cfg : Cfg} {flags m d : Nat} {arg : Val} {cost : Nat} {total : Int} {l0 : Nat} {x : Except Err _}
+    (h : mulStep cfg flags m d arg cost total l0 = x)
+    (hne : x ≠ .error .CostExceeded) {m' : Nat} (hle : m ≤ m') : mulStep cfg flags m' d arg cost total l0 = x := by
   revert h
-  fun_cases mulStep cfg flags m d arg cost total l0 <;> intro h <;> loop_err_core mulStep hne hle h
-
-theorem mulStep_mono {cfg : Cfg} {flags m d : Nat} {arg : Val} {cost : Nat} {total : Int} {l0 : Nat} {r : Nat × Int}
-    (h : mulStep cfg flags m d arg cost total l0 = .ok r) {m' : Nat} (hle : m ≤ m') :
-    mulStep cfg flags m' d arg cost total l0 = .ok r := by
-  revert h
-  fun_cases mulStep cfg flags m d arg cost total l0 <;> intro h <;>
-    first
-    | (cases h; done)
-    | (loop_prep <;> (simp only [mulStep, *, checkCost_mono hle, ↓reduceIte, Bool.false_eq_true, eq_self]; done))
+  fun_cases mulStep cfg flags m d arg cost total l0 <;> intro h <;> loop_mono_core mulStep hne hle h
 
 theorem mulLoop_ok {cfg : Cfg} {flags m d : Nat} {l : List Val} {cost : Nat} {total : Int} {l0 : Nat} {r : Nat × Int}
     (h : mulLoop cfg flags m d l cost total l0 = .ok r) :
@@ -493,21 +488,21 @@ theorem mulLoop_ok {cfg : Cfg} {flags m d : Nat} {l : List Val} {cost : Nat} {to
           (fun m' hm => by simp only [mulLoop_cons, hm, if_neg hlim])
           (fun m' hm => by simp only [mulLoop_cons, hm])
 
-theorem mulLoop_err {cfg : Cfg} {flags m d : Nat} {l : List Val} {cost : Nat} {total : Int} {l0 : Nat} {e : Err}
-    (h : mulLoop cfg flags m d l cost total l0 = .error e)
-    (hne : e ≠ .CostExceeded) {m' : Nat} (hle : m ≤ m') : mulLoop cfg flags m' d l cost total l0 = .error e := by
+theorem mulLoop_mono {cfg : Cfg} {flags m d : Nat} {l : List Val} {cost : Nat} {total : Int} {l0 : Nat}
+    {x : Except Err _} (h : mulLoop cfg flags m d l cost total l0 = x)
+    (hne : x ≠ .error .CostExceeded) {m' : Nat} (hle : m ≤ m') : mulLoop cfg flags m' d l cost total l0 = x := by
   induction l generalizing cost total l0 with
-  | nil => cases h
+  | nil => subst h; rfl
   | cons arg rest ih =>
     rw [mulLoop_cons] at h ⊢
     cases hs : mulStep cfg flags m d arg cost total l0 with
     | error e' =>
-      simp only [hs] at h; cases h
-      simp only [mulStep_err hs hne hle]
+      simp only [hs] at h; subst h
+      simp only [mulStep_mono hs hne hle]
     | ok p =>
       obtain ⟨c2, t'⟩ := p
       simp only [hs] at h
-      simp only [mulStep_mono hs hle]
+      simp only [mulStep_mono hs (fun hh => nomatch hh) hle]
       split at h
       · rename_i hlim; simp only [if_pos hlim]; exact h
       · rename_i hlim; simp only [if_neg hlim]; exact ih h
